@@ -1,5 +1,6 @@
 import OtelVerif.Common.Line
 import OtelVerif.Model.C17
+import OtelVerif.Model.C17Key
 /-! driver for C17: models `c17-split` (split functions, exact differential) and `c17-proc` (processor) -/
 open OtelVerif OtelVerif.Line OtelVerif.Payload OtelVerif.C17
 
@@ -109,6 +110,14 @@ def parseKey (s : String) : Option Key :=
   if s = "_" then some [] else
   (s.splitOn "/").mapM (fun part => if part = "-" then some [] else (part.splitOn ".").mapM String.toNat?)
 
+/-- the RAW client metadata of a `Consume` call: `md=Name:1.2,Other:-,X:7` (header names as sent, values interned; `-` =
+present with an empty list) or `md=-` (no metadata at all) -/
+def parseMd (s : String) : Option Md :=
+  if s = "-" then some [] else
+  (s.splitOn ",").mapM (fun ent => match ent.splitOn ":" with
+    | [name, vs] => (if vs = "-" then some [] else (vs.splitOn ".").mapM String.toNat?).map (fun v => (name, v))
+    | _ => Option.none)
+
 def showKey (nkeys : Nat) (k : Key) : String :=
   if nkeys = 0 then "_" else
   "/".intercalate (k.map (fun vs => if vs.isEmpty then "-" else ".".intercalate (vs.map toString)))
@@ -143,6 +152,8 @@ structure PS (P : Type) where
   /-- accepted but not yet processed (still in the shard's `newItem` channel): burst cases -/
   queue : List (Key × P) := []
   burst : Bool := false
+  /-- `metadata_keys` as written in the configuration (`op cfgraw keys=`) -/
+  rawKeys : List String := []
 
 def sortStrings (l : List String) : List String := l.mergeSort (fun a b => a ≤ b)
 
@@ -169,8 +180,11 @@ def procHandler {P : Type} (sg : Sig P) : Handler (PS P) where
       match kvNat rest "sbs", kvNat rest "max", kvInt rest "timeout", kv rest "keys", kvNat rest "limit" with
       | some sbs, some max, some timeout, some keys, some limit =>
         let r : RawCfg := { sbs := sbs, max := max, timeout := timeout, keys := if keys = "-" then [] else keys.splitOn ",", limit := limit }
-        (s, [s!"obs valid={if validCfg r then 1 else 0}"])
+        -- the verdict of the REGENERATED Validate (`C17_validCfg_matches_source`: equal to `validCfg`)
+        ({ s with rawKeys := r.keys }, [s!"obs valid={if validCfgGen r then 1 else 0}"])
       | _, _, _, _, _ => (s, ["obs bad-op"])
+    | ["defaults"] =>
+      (s, ["obs defaults " ++ " ".intercalate (OtelVerif.Gen.C17Config.defaults.map (fun (k, v) => s!"{k}={v}"))])
     | "cfg" :: rest =>
       match kvNat rest "sbs", kvNat rest "max", kvNat rest "timeout", kvNat rest "nkeys", kvNat rest "limit" with
       | some sbs, some max, some timeout, some nkeys, some limit =>
@@ -178,22 +192,25 @@ def procHandler {P : Type} (sg : Sig P) : Handler (PS P) where
         ({ s with cfg := c, pr := Proc.init sg.ops c }, ["obs done"])
       | _, _, _, _, _ => (s, ["obs bad-op"])
     | "arrive" :: k :: "|" :: rest =>
-      match (kv [k] "k").bind parseKey, sg.parse rest, kv [k] "k" with
-      | some key, some p, some ks =>
+      -- the group is computed by the MODEL from the raw configured keys and the raw client metadata (`groupOf`)
+      match ((kv [k] "md").bind parseMd).map (groupOf s.rawKeys), sg.parse rest with
+      | some key, some p =>
+        let ks := showKey s.cfg.nkeys key
         match s.pr.arrive sg.ops s.cfg key p with
         | some (pr, es) => ({ s with pr := pr, lastOpArrive := some (ks, sg.items p), pendingKey := some ks }, showEmits sg s.cfg.nkeys es ++ ["obs ok"])
         | Option.none => ({ s with lastOpArrive := some (ks, sg.items p), pendingKey := some ks }, ["obs err toomany"])
-      | _, _, _ => (s, ["obs bad-op"])
+      | _, _ => (s, ["obs bad-op"])
     | "enqueue" :: k :: "|" :: rest =>
       -- `Consume` returned (the shard exists / the limit was checked) but the shard goroutine has not taken the item yet:
       -- in the LTS this is `arrive key ∅` now and `arrive key p` when the channel is drained
-      match (kv [k] "k").bind parseKey, sg.parse rest, kv [k] "k" with
-      | some key, some p, some ks =>
+      match ((kv [k] "md").bind parseMd).map (groupOf s.rawKeys), sg.parse rest with
+      | some key, some p =>
+        let ks := showKey s.cfg.nkeys key
         match s.pr.arrive sg.ops s.cfg key sg.ops.empty with
         | some (pr, _) => ({ s with pr := pr, queue := s.queue ++ [(key, p)], burst := true,
                                     lastOpArrive := some (ks, sg.items p), pendingKey := some ks }, ["obs ok"])
         | Option.none => ({ s with burst := true, lastOpArrive := some (ks, sg.items p), pendingKey := some ks }, ["obs err toomany"])
-      | _, _, _ => (s, ["obs bad-op"])
+      | _, _ => (s, ["obs bad-op"])
     | ["advance", us] =>
       match kvNat [us] "us" with
       | some dt =>
